@@ -59,6 +59,26 @@ pub fn workload_burst() -> impl Strategy<Value = Workload> {
 	(proptest::collection::vec(client, 1..=2), 0u16..30, any::<bool>()).prop_map(|(clients, fault_at, btree)| Workload { clients, fault_at, btree })
 }
 
+static PAUSE_DEPTH: AtomicU32 = AtomicU32::new(0);
+static PAUSE_SAVED: std::sync::atomic::AtomicUsize = std::sync::atomic::AtomicUsize::new(0);
+
+/// `Db::get` with the (shared, thread-local) fault injector paused. Two clients may be inside
+/// at once - `get` contains scheduling points - so the pause is counted: the first one in saves
+/// the remaining budget, the last one out restores it. (A plain save / restore per call let one
+/// client re-arm the injector in the middle of the other's read: a false alarm of the harness,
+/// seen once in a smoke run of the thorough tier.)
+fn get_unfaulted(db: &Db, key: &[u8]) -> parity_db::Result<Option<Vec<u8>>> {
+	if PAUSE_DEPTH.fetch_add(1, Ordering::SeqCst) == 0 {
+		PAUSE_SAVED.store(parity_db::verif_remaining_io_operations(), Ordering::SeqCst);
+		parity_db::set_number_of_allowed_io_operations(usize::MAX);
+	}
+	let got = db.get(0, key);
+	if PAUSE_DEPTH.fetch_sub(1, Ordering::SeqCst) == 1 {
+		parity_db::set_number_of_allowed_io_operations(PAUSE_SAVED.load(Ordering::SeqCst));
+	}
+	got
+}
+
 fn options(dir: &Path, wl: &Workload, background: bool) -> Options {
 	let mut o = Options::with_columns(dir, 1);
 	o.columns[0] = ColumnOptions { btree_index: wl.btree, ..Default::default() };
@@ -71,6 +91,7 @@ fn options(dir: &Path, wl: &Workload, background: bool) -> Options {
 
 pub fn execute(wl: Arc<Workload>, base: &Path) {
 	EXECUTIONS.fetch_add(1, Ordering::SeqCst);
+	PAUSE_DEPTH.store(0, Ordering::SeqCst);
 	parity_db::set_number_of_allowed_io_operations(usize::MAX);
 	let dir = fresh_dir(base);
 	drop(Db::open_or_create(&options(&dir, &wl, false)).expect("create"));
@@ -122,10 +143,7 @@ pub fn execute(wl: Arc<Workload>, base: &Path) {
 				}
 				for (k, (tt, cl)) in last {
 					// reads do not count as file operations of the pipeline: pause the injector
-					let left = parity_db::verif_remaining_io_operations();
-					parity_db::set_number_of_allowed_io_operations(usize::MAX);
-					let got = db.get(0, &key(c, k));
-					parity_db::set_number_of_allowed_io_operations(left);
+					let got = get_unfaulted(&db, &key(c, k));
 					match got {
 						Ok(Some(v)) if v == value(k, cl, c, tt) => {},
 						Ok(other) => violation("read-after-io-error-wrong", format!("client {c}: key {k} should hold transaction {tt}, read {:?} bytes", other.map(|v| v.len()))),
